@@ -708,8 +708,7 @@ def r3_exemptions(run, w):
          "DocActions.BulkAddRecord: cannot follow which column is exempted (`%s`)" % short(a_node))
     args_ok = text(it) == aps[3] and col_ok and a_rows is not None and \
         aex2.norm(a_rows) == aps[2] and a_flag is not None and is_const(aex2.expand(a_flag), True)
-    # every iteration over a non-formula column reaches it, and the loop runs after the rows
-    # were added
+    # every iteration over a non-formula column reaches it
     lh = nodes_for(acfg2, lp)
     lb = nodes_of_stmts(acfg2, lp.body)
     first = {m_ for h in lh for m_ in acfg2.normal_succ(h) if m_ in lb}
@@ -717,7 +716,10 @@ def r3_exemptions(run, w):
     frx = Facts(acfg2, {key}, ex=aex2)
     seenx = frx.run([(m_, {}) for m_ in first], stop={pn.id} | lh)
     leaks = [f for h in lh for f in seenx.get(h, []) if f.get(key) is not True]
-    ok = args_ok and not leaks and all(acfg2.postdominated_by(a_, lh) for a_ in adds)
+    # (whether the rows are added before or after does not matter: the exemption lasts for the
+    # whole user action) -- but the loop must run on every path that adds them
+    ok = args_ok and not leaks and \
+        all(acfg2.postdominated_by(a_, lh) or acfg2.dominated_by(a_, lh) for a_ in adds)
     run.ob(R3, ba.qualname, "for <col> in column_values: if not <col>.is_formula(): "
            "self._engine.prevent_recalc(<col>.node, row_ids, should_prevent=True)",
            "every explicit value a new record is given for a data column (a replayed "
